@@ -3,7 +3,7 @@
    lists of thread choices, any number of producers, any flow keys, any channel capacity, sync.Pool
    handing back any channel that was put). *)
 From Coq Require Import List Arith Bool ZArith.
-From Dae Require Import C13_Spec C13_Model C13_Proofs C13_Inv C13_EpModel C13_EpProofs C13_EpTuples C13_EpFine C13_EpFineWit C13_TrFine C13_TrFineProofs C13_Ingress C13_IngressProofs C13_IngressCor C13_TrGen C13_TrGenProofs.
+From Dae Require Import C13_Spec C13_Model C13_Proofs C13_Inv C13_EpModel C13_EpProofs C13_EpTuples C13_EpFine C13_EpFineWit C13_TrFine C13_TrFineProofs C13_Ingress C13_IngressProofs C13_IngressCor C13_TrGen C13_TrGenProofs C13_Overflow.
 Import ListNotations.
 
 (* The full statement: for every schedule the history satisfies the spec's safety clause (per flow the
@@ -87,6 +87,31 @@ Theorem C13_tuple_wait_once_refuted :
   exists thr sched, deletes_ok (tr_run false thr sched) = false /\ exists k, refs_match (tr_run false thr sched) k = false.
 Proof. exact C13_tuple_wait_once_refuted_proof. Qed.
 Print Assumptions C13_tuple_wait_once_refuted.
+
+(* The overflow list as a Go slice with its capacity shrink (C13_Overflow.v): for every content, every
+   capacity and every number of pops, what popOverflowTask hands out is the queued tasks in order — a shrink
+   never changes what is waiting — so the plain-list overflow of C13_Model.v (and with it
+   C13_no_dup_no_invent_partial, C13_one_at_a_time, C13_in_order_partial) covers arbitrarily long backlogs of
+   one flow; draining a backlog executes exactly what was queued. *)
+Theorem C13_overflow_shrink_preserves :
+  forall ql dv (contents : list nat) (cap n : nat),
+    ov_drain n true ql dv (contents, cap) = firstn n contents.
+Proof. exact C13_overflow_shrink_preserves_proof. Qed.
+Print Assumptions C13_overflow_shrink_preserves.
+
+Theorem C13_overflow_backlog_exactly_once :
+  forall ql dv (contents : list nat) (cap : nat),
+    ov_drain (length contents) true ql dv (contents, cap) = contents.
+Proof. exact C13_overflow_backlog_exactly_once_proof. Qed.
+Print Assumptions C13_overflow_backlog_exactly_once.
+
+(* A shrink that copies into a zero-length slice drops every task still waiting. *)
+Theorem C13_overflow_copy_into_empty_refuted :
+  exists ql dv contents cap,
+    ov_drain (length contents) false ql dv (contents, cap) <> contents
+    /\ length (ov_drain (length contents) false ql dv (contents, cap)) = 1.
+Proof. exact C13_overflow_copy_into_empty_refuted_proof. Qed.
+Print Assumptions C13_overflow_copy_into_empty_refuted.
 
 (* Kernel flow entries across generations (C13_TrGen.v: controlPlaneCore instances sharing one tracker per BPF
    object set through the ref-counted registry; a closed generation that still owns endpoints takes the shared
